@@ -24,6 +24,7 @@ struct Ctx {
   bool creatingKey = false;         // the current operation may create the member it names
   std::deque<std::vector<char>> pool2;
   int kind = 0;
+  bool failing = false;             // an allocator failure schedule is in force: use the API forms that return a status
 };
 
 // the buffer a linked string lives in: one per distinct text (like string literals), kept alive for the whole history
@@ -206,7 +207,9 @@ static std::string runOp(Ctx& c, const std::vector<std::string>& a) {
     bool dKey = a[2][0] == 'k', sKey = a[4][0] == 'k';
     std::string dk = dKey ? unhex(a[2].substr(1)) : std::string(), sk = sKey ? unhex(a[4].substr(1)) : std::string();
     size_t di = dKey ? 0 : std::stoul(a[2].substr(1)), si = sKey ? 0 : std::stoul(a[4].substr(1));
-    bool viaSet = (alias & 1) != 0;       // dst[p1].set(src[p2]) or dst[p1] = src[p2]
+    // dst[p1].set(src[p2]) or dst[p1] = src[p2]; the assignment operator has no status to return (a failure shows in
+    // overflowed() only), so under a failure schedule the form that reports is used
+    bool viaSet = (alias & 1) != 0 || c.failing;
     bool r = true;
     if (dKey && sKey) { if (viaSet) r = dsth[dk].set(srch[sk]); else dsth[dk] = srch[sk]; }
     else if (dKey && !sKey) { if (viaSet) r = dsth[dk].set(srch[si]); else dsth[dk] = srch[si]; }
@@ -381,9 +384,12 @@ static std::string runOp(Ctx& c, const std::vector<std::string>& a) {
   if (op == "dcopyctor") { JsonDocument tmp(*c.docs[std::stoul(a[2])]); std::string d1 = dump(tmp.as<JsonVariantConst>());
                            SpyAllocator own;
                            JsonDocument tmp2(c.docs[std::stoul(a[2])]->as<JsonVariantConst>(), &own);      // constructed from a value, on its own allocator
+                           bool incomplete = tmp.overflowed();      // (the copy lives on the source's allocator: under a failure schedule it may legitimately be partial, and says so)
                            JsonDocument tmp3(std::move(tmp));                                              // move construction
                            std::string want = dump(c.docs[std::stoul(a[2])]->as<JsonVariantConst>());
-                           if (dump(tmp2.as<JsonVariantConst>()) != want || dump(tmp3.as<JsonVariantConst>()) != want) return "COPYCTOR-DIFFERS";
+                           if (dump(tmp2.as<JsonVariantConst>()) != want) return "COPYCTOR-DIFFERS";
+                           if (incomplete) return "-";
+                           if (dump(tmp3.as<JsonVariantConst>()) != want) return "COPYCTOR-DIFFERS";
                            return d1 == want ? "-" : "COPYCTOR-DIFFERS"; }
   if (op == "deser") {
     std::string text = unhex(a[2]);
@@ -417,6 +423,7 @@ static std::string runHistory(size_t nd, int kind, const std::string& fs, const 
                               const JsonDocument* shared, unsigned yieldSeed) {
   Ctx c;
   c.kind = kind;
+  c.failing = fs != "-";
   if (fs != "-") {
     if (fs.back() == '+') c.spy.fail_from = std::stol(fs.substr(0, fs.size() - 1));
     else { size_t k = std::stoul(fs); c.spy.fail.assign(k + 1, false); c.spy.fail[k] = true; }
